@@ -279,7 +279,13 @@ func Generate(seed uint64) *Scenario {
 	cur := &sc.Root
 	names := allNames(cur)
 	unknowns := []string{"--zzz", "--yyy=3", "-w", "--unk", "--zeta", "-zy"}
-	for i, n := 0, r.Intn(8); i < n; i++ {
+	nargs := r.Intn(8)
+	if len(cur.Subs) > 0 && r.Intn(10) == 0 { // `help <topic>`, the topic possibly abbreviated
+		w := cur.Subs[r.Intn(len(cur.Subs))].Name
+		sc.Argv = append(sc.Argv, "help", w[:1+r.Intn(len(w))])
+		nargs = 0
+	}
+	for i, n := 0, nargs; i < n; i++ {
 		switch r.Intn(10) {
 		case 0, 1: // known option with value
 			if len(names) > 0 {
@@ -324,6 +330,7 @@ func Generate(seed uint64) *Scenario {
 				sc.Argv = append(sc.Argv, "-"+names[r.Intn(len(names))])
 			}
 		}
+
 	}
 	// environment for GetEnv options
 	var collect func(c *CmdDef)
